@@ -49,7 +49,7 @@ HintedOf(U, n) == IF ~U.pkg[n].exists THEN {}
 GRP0 == [id |-> 0, kind |-> "", sol |-> <<>>, msg |-> "", calls |-> <<>>, profile |-> ""]
 BB0 == [callseq |-> <<>>, dcalls |-> {}, ccalls |-> {}, dret |-> {}, cret |-> {}, kreqs |-> {}, knames |-> {},
         cancelSeen |-> FALSE, cancelVal |-> 0, prevSolves |-> 0, callsThisSolve |-> 0]
-WB0 == [cls |-> <<>>, nlearnt |-> 0, trail |-> <<>>, A |-> {}, vsolv |-> <<>>, vhelp |-> <<>>, on |-> FALSE]
+WB0 == [cls |-> <<>>, nlearnt |-> 0, trail |-> <<>>, lv |-> <<>>, A |-> {}, vsolv |-> <<>>, vhelp |-> <<>>, on |-> FALSE]
 
 Init == /\ l = 1
         /\ ctx = [id |-> -1, k |-> 0, begin |-> 0]
@@ -199,6 +199,14 @@ ClauseEv ==
   /\ E("clause") /\ UNCHANGED <<ctx, bb, grp>>
   /\ Chk("T", Rec[l].id = Len(wb.cls) + 1, "T_ClauseIdNotDense", Rec[l].id)
   /\ Chk("C03", TrueFact(Rec[l]), "C03_TrueFact", Rec[l])
+  \* the candidates of every version set of a requirement are kept in the order C20
+  \* defines (provider order, favored candidate rotated to the front): the order in
+  \* which LazyCdcl!Decide tries them
+  /\ (IF Rec[l].kind = "requires" /\ Len(Rec[l].cands) = Len(Rec[l].vs)
+      THEN Chk("C07", \A i \in DOMAIN Rec[l].vs :
+                        [j \in DOMAIN Rec[l].cands[i] |-> SolvOfVar(Rec[l].cands[i][j])] = Sorted(u, Rec[l].vs[i]),
+               "C07_ClauseCandidateOrder", <<Rec[l].id, Rec[l].vs>>)
+      ELSE TRUE)
   /\ wb' = [wb EXCEPT !.cls = Append(wb.cls, l)]
 
 \* requires clauses of the root that still need a decision: no candidate
@@ -210,10 +218,38 @@ OpenRootClauses ==
           /\ \A y \in pos : y \notin wb.A
           /\ \E y \in pos : Neg(y) \notin wb.A}
 
+\* level at which a variable was assigned (0 = not on the trail)
+LvlOfVar(v) == IF \E i \in DOMAIN wb.trail : wb.trail[i][1] = v
+               THEN wb.lv[CHOOSE i \in DOMAIN wb.trail : wb.trail[i][1] = v] ELSE 0
+TopLvl == IF wb.lv = <<>> THEN 0 ELSE wb.lv[Len(wb.lv)]
+IsRequires(i) == HasClause(i) /\ Rec[wb.cls[i]].ev = "clause" /\ Rec[wb.cls[i]].kind = "requires"
+
+\* The guard of LazyCdcl!Decide, judged on the real decision: the decision serves a
+\* requirement (a requires clause) of a solvable that is installed (C05: nothing is
+\* installed for a candidate that was not chosen), the requirement is still unmet (C05),
+\* and the candidate taken is the first one in the clause's candidate order that is not
+\* ruled out (C07: the preferred candidate is tried first).
+DecideRules(r) ==
+  IF ~IsRequires(r.why)
+  THEN Chk("C05", FALSE, "C05_DecideWithoutRequirement", <<r.v, r.why>>)
+  ELSE LET c    == Rec[wb.cls[r.why]]
+           flat == Concat(c.cands)
+           pos  == {i \in DOMAIN flat : flat[i] = r.v}
+       IN /\ Chk("C05", r.val /\ pos # {}, "C05_DecideNotACandidate", <<r.v, r.why>>)
+          /\ Chk("C05", <<c.a, 1>> \in wb.A, "C05_DecideParentNotInstalled", <<r.v, r.why, c.a>>)
+          /\ Chk("C05", \A i \in DOMAIN flat : <<flat[i], 1>> \notin wb.A, "C05_DecideForMetRequirement", <<r.v, r.why>>)
+          /\ Chk("C07", pos = {} \/ LET k == CHOOSE k \in pos : \A j \in pos : k <= j
+                                    IN \A i \in 1..(k - 1) : <<flat[i], 0>> \in wb.A,
+                "C07_DecideNotFirstCandidate", <<r.v, r.why, flat>>)
+
 Assign ==
   /\ E("assign") /\ UNCHANGED <<ctx, bb, grp>>
   /\ LET x == <<Rec[l].v, IF Rec[l].val THEN 1 ELSE 0>> IN
      /\ Chk("C02", x \notin wb.A /\ Neg(x) \notin wb.A, "C02_Reassigned", x)
+     \* LazyCdcl!TrailConsistent: levels never decrease along the trail; a decision opens
+     \* exactly the next level
+     /\ Chk("C02", Rec[l].lvl >= TopLvl, "C02_TrailLevelDecreases", <<Rec[l].v, Rec[l].lvl, TopLvl>>)
+     /\ Chk("C02", Rec[l].tag # "decide" \/ Rec[l].lvl = TopLvl + 1, "C02_DecisionLevel", <<Rec[l].v, Rec[l].lvl, TopLvl>>)
      \* C08 (mechanism, from the canonical model): a decision is taken for a direct
      \* requirement as long as one of them is undecided
      /\ (IF Rec[l].tag = "decide" /\ RuleOn("C08")
@@ -222,21 +258,32 @@ Assign ==
               /\ (IF o # {} /\ Cardinality({i \in DOMAIN wb.cls : Rec[wb.cls[i]].ev = "clause" /\ Rec[wb.cls[i]].kind = "requires" /\ Rec[wb.cls[i]].a # 0 /\ <<Rec[wb.cls[i]].a, 1>> \in wb.A}) > 0
                    THEN Cover(<<"explicit_choice">>) ELSE TRUE)
          ELSE TRUE)
+     /\ (IF Rec[l].tag = "decide" /\ (RuleOn("C05") \/ RuleOn("C07")) THEN DecideRules(Rec[l]) ELSE TRUE)
+     \* propagation found every conflict before the solver moves on: no clause of the
+     \* database is falsified when a decision is taken
+     /\ (IF Rec[l].tag = "decide" /\ RuleOn("C01")
+         THEN Chk("C01", \A i \in DOMAIN wb.cls : \E y \in ClauseLits(i) : Neg(y) \notin wb.A,
+                  "C01_DecisionOverFalsifiedClause",
+                  {i \in DOMAIN wb.cls : \A y \in ClauseLits(i) : Neg(y) \in wb.A})
+         ELSE TRUE)
      /\ (IF Rec[l].tag # "implied" THEN TRUE
          ELSE /\ Chk("C02", HasClause(Rec[l].why), "C02_ReasonLogged", Rec[l].why)
               /\ (IF HasClause(Rec[l].why)
                   THEN LET c == [lits |-> ClauseLits(Rec[l].why)] IN
-                       Chk("C02", x \in c.lits /\ \A y \in c.lits \ {x} : Neg(y) \in wb.A,
+                       /\ Chk("C02", x \in c.lits /\ \A y \in c.lits \ {x} : Neg(y) \in wb.A,
                              "C02_ReasonIsUnit", <<Rec[l].v, Rec[l].val, Rec[l].why>>)
+                       \* an implied literal lives at least as high as what implies it
+                       /\ Chk("C02", \A y \in c.lits \ {x} : LvlOfVar(y[1]) <= Rec[l].lvl,
+                             "C02_ImpliedBelowAntecedent", <<Rec[l].v, Rec[l].lvl, Rec[l].why>>)
                   ELSE TRUE))
-     /\ wb' = [wb EXCEPT !.trail = Append(wb.trail, x), !.A = wb.A \cup {x}]
+     /\ wb' = [wb EXCEPT !.trail = Append(wb.trail, x), !.lv = Append(wb.lv, Rec[l].lvl), !.A = wb.A \cup {x}]
 
 Undo ==
   /\ E("undo") /\ UNCHANGED <<ctx, bb, grp>>
   /\ Chk("C05", Rec[l].len <= Len(wb.trail), "C05_UndoNotPrefix", Rec[l].len)
   /\ LET n == IF Rec[l].len <= Len(wb.trail) THEN Rec[l].len ELSE Len(wb.trail)
          t == SubSeq(wb.trail, 1, n)
-     IN wb' = [wb EXCEPT !.trail = t, !.A = Range(t)]
+     IN wb' = [wb EXCEPT !.trail = t, !.lv = SubSeq(wb.lv, 1, n), !.A = Range(t)]
 
 Learnt ==
   /\ E("learnt") /\ UNCHANGED <<ctx, bb, grp>>
